@@ -46,6 +46,10 @@ func (g *Gen) boundaryCase(cfg string) (*TyDef, *Val) {
 		}
 	}
 	target := boundaryTargets[g.r.Intn(len(boundaryTargets))]
+	if g.r.P(2) {
+		// the next width of a length prefix: 3 -> 4 bytes at 2^21 (a two-megabyte body; rare: the op is large)
+		target = 2097150 + g.r.Intn(5)
+	}
 	enc := cfgRef(cfg)
 	for iter := 0; iter < 4; iter++ {
 		cur := len(enc.top(inner, v, ""))
